@@ -225,8 +225,8 @@ def rule_result_mapping(ctx):
         def is_kind(t):
             return t[0] == "field" and t[2] == "0" and t[1][0] == "downcast" and t[1][2] == "Some" and is_te(t[1][1])
         W = Walker(ctx, f, [Atom("failure", "opt", is_te, ["None", "Some"]), Atom("kind", "enum", is_kind, ["Err", "Panic"])])
-        oks = [bi for bi, b in enumerate(f.blocks) for s in b["s"] if s["k"] == "assign" and s["p"]["l"] == 0 and s["r"]["k"] == "agg" and s["r"].get("variant") == "Ok"]
-        errs = [bi for bi, b in enumerate(f.blocks) for s in b["s"] if s["k"] == "assign" and s["p"]["l"] == 0 and s["r"]["k"] == "agg" and s["r"].get("variant") == "Err"]
+        oks = [bi for bi, b in enumerate(f.blocks) for s in b["s"] if s["k"] == "assign" and s["p"]["l"] in Q.ret_locals(f) and s["r"]["k"] == "agg" and s["r"].get("variant") == "Ok"]
+        errs = [bi for bi, b in enumerate(f.blocks) for s in b["s"] if s["k"] == "assign" and s["p"]["l"] in Q.ret_locals(f) and s["r"]["k"] == "agg" and s["r"].get("variant") == "Err"]
         pan = [c["bb"] for c in T.calls() if c["q"] in ("std::panicking::panic_fmt", "std::panicking::panic", "std::rt::begin_panic")]
         names, tab = W.table({"ok": oks, "err": errs, "panic": pan})
         name = q.split("::")[-1]
@@ -237,7 +237,7 @@ def rule_result_mapping(ctx):
         okt = False
         for bi in oks:
             for s in f.blocks[bi]["s"]:
-                if s["k"] == "assign" and s["p"]["l"] == 0 and s["r"]["k"] == "agg":
+                if s["k"] == "assign" and s["p"]["l"] in Q.ret_locals(f) and s["r"]["k"] == "agg":
                     t = T.rvalue(s["r"])
                     okt = any(x[0] == "call" and x[1].endswith("JoinHandle::join_raw") for x in subterms(t))
         ctx.ob(R, "%s Ok payload" % name, okt, "Ok carries the joined root task's value" if okt else "Ok does not carry the root task's result", f.loc())
